@@ -203,9 +203,11 @@ func (c *Ctx) linNormalize(op string, a, b *Term) *Term {
 			walk(t.Args[1], (-k)&m)
 		case t.Op == "bvneg":
 			walk(t.Args[0], (-k)&m)
-		case t.Op == "bvmul" && t.Args[1].IsConst():
+		// a constant factor is folded into the coefficient of an atomic factor only: k*(x-y) stays
+		// one product whether it stands alone or inside a sum (one normal form for both)
+		case t.Op == "bvmul" && t.Args[1].IsConst() && !isSum(t.Args[0]):
 			walk(t.Args[0], (k*t.Args[1].V)&m)
-		case t.Op == "bvmul" && t.Args[0].IsConst():
+		case t.Op == "bvmul" && t.Args[0].IsConst() && !isSum(t.Args[1]):
 			walk(t.Args[1], (k*t.Args[0].V)&m)
 		default:
 			coefs[t.id] = (coefs[t.id] + k) & m
@@ -263,3 +265,5 @@ func (c *Ctx) linNormalize(op string, a, b *Term) *Term {
 	}
 	return acc
 }
+
+func isSum(t *Term) bool { return t.Op == "bvadd" || t.Op == "bvsub" || t.Op == "bvneg" }
